@@ -554,6 +554,70 @@ example : (∀ s, nmLike.term (nmLike.iter s) = true → nmLike.started (nmLike.
   · exact ⟨Or.inl (by unfold Plain; decide), by decide⟩
   · exact ⟨Or.inl (by unfold Plain; decide), by decide⟩
 
+/-- **a member that meets its termination at generation 0** - its first `_Step` (the initial evaluation) already stops
+it, it has ONE step record and `generations == 0` - is iterated exactly once, however many ensemble `Step`s follow
+while the other members run on, and is then exactly what the run-to-completion `_solve` leaves: the stop test `Step`
+makes before it iterates reads `len(self._stepmon)` (`started`), which one record satisfies.  Hypotheses: the member is
+fresh (not live, no verdict, no step record after its decoration); `Finalize` does not revoke the stop and an iteration
+that stops leaves a step record. -/
+theorem ens_generation0_member_iterated_once (a : MAlg S)
+    (hfin : ∀ s, a.term (a.iter s) = true → a.term (a.fin (a.iter s)) = true ∧ a.started (a.fin (a.iter s)) = true)
+    (m : Mem S) (hl : m.live = false) (ht : a.term m.st = false)
+    (hs : a.started (a.dec m.st) = false) (h0 : a.term (a.iter (a.dec m.st)) = true) (k fuel : Nat) :
+    (ensMemberStep a)^[k + 1] m
+        = { st := a.fin (a.iter (a.dec m.st)), live := false, ndec := m.ndec + 1, niter := m.niter + 1 } ∧
+    ensMemberSolve a (fuel + 1) m = ((ensMemberStep a)^[k + 1] m, true) := by
+  have hp : Plain a m := by simp [Plain, ht]
+  have h1 : mStep a m
+      = ({ st := a.fin (a.iter (a.dec m.st)), live := false, ndec := m.ndec + 1, niter := m.niter + 1 }, true) := by
+    simp [mStep, bootstrapM, hl, hs, h0, (hfin _ h0).1]
+  have h1' : ensMemberStep a m
+      = { st := a.fin (a.iter (a.dec m.st)), live := false, ndec := m.ndec + 1, niter := m.niter + 1 } := by
+    rw [ensMemberStep_plain a m hp, h1]
+  have hF : Finished a (ensMemberStep a m) := by
+    rw [h1']; exact ⟨rfl, (hfin _ h0).1, (hfin _ h0).2⟩
+  have h2 : (ensMemberStep a)^[k + 1] m = ensMemberStep a m := by
+    rw [Function.iterate_succ_apply]
+    exact iterate_fixed' _ _ (ensMemberStep_finished a _ hF) k
+  refine ⟨h2.trans h1', ?_⟩
+  rw [h2, h1', ensMemberSolve_plain a (fuel + 1) m hp]
+  simp [mSolve, h1]
+
+/-- members for the witness below: state = (best energy, number of step records); the first iteration is the initial
+evaluation (one record, energy unchanged), every later one halves the energy; the termination is value-to-reach-like
+(a record exists and the energy is <= 2).  `byGenerations = false`: the stop test of `Step` as it is in the code
+(`if len(self._stepmon)`); `true`: NOT the code - the test guarded by `if self.generations` (records - 1) instead. -/
+def vtrLike (byGenerations : Bool) : MAlg (Nat × Nat) :=
+  { dec := id, iter := fun s => if s.2 = 0 then (s.1, 1) else (s.1 / 2, s.2 + 1), fin := id,
+    term := fun s => decide (0 < s.2 ∧ s.1 ≤ 2),
+    started := fun s => if byGenerations = true then decide (1 < s.2) else decide (0 < s.2) }
+
+/-- **why the stop test before the iteration must read the step RECORDS, not the generations** (kernel-checked
+witness): two members, the second one meets the termination at generation 0 while the first needs three iterations.
+With the code's guard 4 ensemble `Step`s = `Solve`, the early member iterated once.  With the guard
+`if self.generations` the run-to-completion result is the same (its `Solve` loop leaves through the message of the
+first `Step`), but the next ensemble `Step` iterates the finished member AGAIN (one record = generation 0 does not
+pass the guard): step-wise and run-to-completion results differ. -/
+theorem ens_generations_guard_witness :
+    (ensStepL (vtrLike false))^[4] [{ st := (8, 0), live := false }, { st := (2, 0), live := false }]
+        = ensSolveL (vtrLike false) 5 [{ st := (8, 0), live := false }, { st := (2, 0), live := false }] ∧
+    ensSolveL (vtrLike false) 5 [{ st := (8, 0), live := false }, { st := (2, 0), live := false }]
+        = [{ st := (2, 3), live := false, ndec := 1, niter := 3 }, { st := (2, 1), live := false, ndec := 1, niter := 1 }] ∧
+    ensSolveL (vtrLike true) 5 [{ st := (8, 0), live := false }, { st := (2, 0), live := false }]
+        = ensSolveL (vtrLike false) 5 [{ st := (8, 0), live := false }, { st := (2, 0), live := false }] ∧
+    (ensStepL (vtrLike true))^[4] [{ st := (8, 0), live := false }, { st := (2, 0), live := false }]
+        = [{ st := (2, 3), live := false, ndec := 1, niter := 3 }, { st := (1, 2), live := false, ndec := 1, niter := 2 }] := by
+  decide
+
+/-- non-vacuity of `ens_generation0_member_iterated_once`: the early member of the witness satisfies its hypotheses -/
+example : (∀ s, (vtrLike false).term ((vtrLike false).iter s) = true →
+      (vtrLike false).term ((vtrLike false).fin ((vtrLike false).iter s)) = true ∧
+      (vtrLike false).started ((vtrLike false).fin ((vtrLike false).iter s)) = true) ∧
+    (vtrLike false).term (2, 0) = false ∧ (vtrLike false).started ((vtrLike false).dec (2, 0)) = false ∧
+    (vtrLike false).term ((vtrLike false).iter ((vtrLike false).dec (2, 0))) = true := by
+  refine ⟨fun s h => ⟨h, ?_⟩, by decide, by decide, by decide⟩
+  by_cases hz : s.2 = 0 <;> simp [vtrLike, hz]
+
 /-- non-vacuity: three countdown members, a schedule that interleaves them unevenly -/
 example : runSched (fun n : Nat => n - 1) (fun n => n == 0) [3, 1, 2] [2, 0, 0, 1, 2, 0, 1, 2, 0]
     = [3, 1, 2].map (runToEnd (fun n : Nat => n - 1) (fun n => n == 0) 5) := by decide
